@@ -300,6 +300,28 @@ fn journal_write(tape: &[u32]) {
     });
 }
 
+/// Exhaustive suites journal the index of the item a thread is about to run (as a one-word
+/// "tape" under the pseudo-suite name "item:<suite>").
+fn journal_write_item(suite: &str, i: u64) {
+    if journal_dir().is_none() {
+        return;
+    }
+    if let Ok(mut cs) = CURRENT_SUITE.lock() {
+        if !cs.starts_with("item:") || &cs[5..] != suite {
+            *cs = format!("item:{}", suite);
+        }
+    }
+    journal_write(&[(i >> 32) as u32, i as u32]);
+}
+
+/// `VERIF_ONLY_ITEM=<suite>:<index>`: run nothing but that one item of that exhaustive suite (used
+/// by the supervisor to find the item that killed a worker, and by the replay of such a finding).
+pub fn only_item() -> Option<(String, u64)> {
+    let v = std::env::var("VERIF_ONLY_ITEM").ok()?;
+    let (s, i) = v.rsplit_once(':')?;
+    Some((s.to_string(), i.parse().ok()?))
+}
+
 /// Read back the journalled (suite, tape) pairs of a dead worker process.
 pub fn journal_read(dir: &std::path::Path) -> Vec<(String, Vec<u32>)> {
     let mut out = Vec::new();
@@ -378,6 +400,9 @@ pub fn tape_suite(
     tape_len: usize,
     f: &(dyn Fn(&mut Gen) -> Verdict + Sync),
 ) -> SuiteReport {
+    if only_item().is_some() {
+        return SuiteReport { name: name.to_string(), ..Default::default() };
+    }
     if let Ok(mut cs) = CURRENT_SUITE.lock() {
         *cs = name.to_string();
     }
@@ -652,6 +677,11 @@ impl Acc {
     }
 }
 
+fn pool() -> &'static rayon::ThreadPool {
+    static P: std::sync::OnceLock<rayon::ThreadPool> = std::sync::OnceLock::new();
+    P.get_or_init(|| rayon::ThreadPoolBuilder::new().build().expect("thread pool"))
+}
+
 /// Enumerate `outer` work items in parallel; `f(i, acc)` evaluates every inner case of item `i`.
 /// The reported failure is the one with the smallest outer index (deterministic).
 pub fn exhaustive_suite(
@@ -661,9 +691,17 @@ pub fn exhaustive_suite(
     f: &(dyn Fn(u64, &mut Acc) + Sync),
 ) -> SuiteReport {
     STOP.store(false, Ordering::SeqCst);
-    let acc = (0..outer)
+    let (lo, hi) = match only_item() {
+        Some((s, i)) if s == name => (i.min(outer), (i + 1).min(outer)),
+        Some(_) => (0, 0),
+        None => (0, outer),
+    };
+    // always on pool threads (never on the calling thread), so that a single item re-run by the
+    // supervisor meets the same stack size as in the full run
+    let acc = pool().install(|| (lo..hi)
         .into_par_iter()
         .fold(Acc::default, |mut acc, i| {
+            journal_write_item(name, i);
             if STOP.load(Ordering::Relaxed) && !acc.failed() {
                 return acc;
             }
@@ -694,7 +732,7 @@ pub fn exhaustive_suite(
                 (None, y) => y,
             };
             a
-        });
+        }));
     let mut rep = SuiteReport {
         name: name.to_string(),
         evaluations: acc.evals,
@@ -722,6 +760,11 @@ pub fn exhaustive_suite(
 pub fn simple_suite(name: &str, exhaustive: bool, f: impl FnOnce(&mut Acc)) -> SuiteReport {
     STOP.store(false, Ordering::SeqCst);
     let mut acc = Acc::default();
+    match only_item() {
+        Some((s, _)) if s != name => return SuiteReport { name: name.to_string(), ..Default::default() },
+        _ => {}
+    }
+    journal_write_item(name, 0);
     if let Err(p) = guard(|| f(&mut acc)) {
         acc.fail(json!({"kind": "params"}), format!("HARNESS: panic outside the guarded calls: {}", p));
     }
@@ -878,10 +921,12 @@ pub fn finish(ctx: &Ctx, reports: Vec<SuiteReport>, summary: Summary) -> i32 {
         "wall_s": (wall * 1000.0).round() / 1000.0,
         "violations": violations,
     });
-    let dir = ctx.root.join("evidence");
-    let _ = std::fs::create_dir_all(&dir);
-    let path = dir.join(format!("{}.json", ctx.prop));
-    std::fs::write(&path, serde_json::to_string_pretty(&ev).unwrap()).expect("cannot write evidence");
+    if only_item().is_none() {
+        let dir = ctx.root.join("evidence");
+        let _ = std::fs::create_dir_all(&dir);
+        let path = dir.join(format!("{}.json", ctx.prop));
+        std::fs::write(&path, serde_json::to_string_pretty(&ev).unwrap()).expect("cannot write evidence");
+    }
     println!(
         "{} {} seed={} evaluations={} distinct_nontrivial={} violations={} wall={:.1}s",
         ctx.prop,
@@ -1270,6 +1315,50 @@ pub fn supervise(prop: &str, tier: Tier, seed: u64) -> i32 {
     let cands = journal_read(&jdir);
     let _ = std::fs::remove_dir_all(&jdir);
     for (suite, tape) in cands {
+        if let Some(item_suite) = suite.strip_prefix("item:") {
+            // an item of an exhaustive suite: re-run that item alone in a fresh worker
+            let i = ((tape.first().copied().unwrap_or(0) as u64) << 32) | tape.get(1).copied().unwrap_or(0) as u64;
+            let exe = match std::env::current_exe() {
+                Ok(e) => e,
+                Err(_) => continue,
+            };
+            let st = std::process::Command::new(exe)
+                .arg("run-worker")
+                .arg(prop)
+                .arg("--tier")
+                .arg(tier.name())
+                .env("VERIF_SEED", seed.to_string())
+                .env("VERIF_ONLY_ITEM", format!("{}:{}", item_suite, i))
+                .env_remove("VERIF_JOURNAL_DIR")
+                .stdout(std::process::Stdio::null())
+                .stderr(std::process::Stdio::null())
+                .status();
+            let died = match st {
+                Ok(s) => !matches!(s.code(), Some(0) | Some(1) | Some(2)),
+                Err(_) => false,
+            };
+            if died {
+                let fl = Failure {
+                    suite: item_suite.to_string(),
+                    msg: "the process running this enumerated item died (abort, stack overflow or kill)".into(),
+                    signature: None,
+                    case: json!({"kind": "only_item", "suite": item_suite, "item": i}),
+                    description: None,
+                };
+                let path = write_replay(&ctx, &fl);
+                println!("--- {} / {}: enumerated item {} kills the process that runs it (not a caught panic: abort or stack overflow)", prop, item_suite, i);
+                println!("VIOLATION property={} replay={}", prop, path.display());
+                let ev = json!({
+                    "property_id": prop, "tier": tier.name(), "seed": seed, "level": "exploration",
+                    "coverage": {"evaluations": 1, "distinct_nontrivial": 2, "rule": "run ended by the death of the worker process; culprit item identified from the journal and reproduced in a fresh process", "samples": [{"replay": path.display().to_string()}]},
+                    "wall_s": ctx.start.elapsed().as_secs_f64(), "violations": 1,
+                });
+                let _ = std::fs::create_dir_all(ctx.root.join("evidence"));
+                let _ = std::fs::write(ctx.root.join("evidence").join(format!("{}.json", prop)), serde_json::to_string_pretty(&ev).unwrap());
+                return 1;
+            }
+            continue;
+        }
         let fl = Failure {
             suite: suite.clone(),
             msg: "the process running this case died (abort, stack overflow or kill)".into(),
